@@ -51,6 +51,15 @@ inductive JStep (g : G) (perm : List Nat) (j : Joiner) : G → List Obs → Prop
       (g.unfinished snap).isEmpty = true →
       JStep g perm j (setJ g { j with snapshot := none }) []
 
+theorem joinerPop_nil {g : G} (j : Joiner) (hd : g.doneq = []) :
+    g.joinerPop j = (setJ g { j with phase := .fin, hasPermit := false }, []) := by
+  unfold G.joinerPop; rw [hd]
+
+theorem joinerPop_cons {g : G} (j : Joiner) {t : Nat} {rest : List Nat} (hd : g.doneq = t :: rest) :
+    g.joinerPop j = (setJ (g.popT t rest)
+      { j with phase := if g.stopAfter t rest then .fin else .next, hasPermit := false }, []) := by
+  unfold G.joinerPop; rw [hd]
+
 /-- inversion of `joinerStep` (repaired `join()`) -/
 theorem joinerStep_inv {g : G} {perm : List Nat} {g' : G} {o : List Obs} (hfix : g.fixed = true)
     (h : g.joinerStep perm = some (g', o)) :
